@@ -475,7 +475,7 @@ package graphql
 // The number of walks is therefore bounded by #types x #selection sets, however often a fragment is spread (defect s26).
 //@   ghost marked bool
 //@   entry ghost marked = false
-//@   call mapupdate assert !(arg1 in prepared)
+//@   call mapupdate assert !(arg1 in prepared) && arg1.typ == any(typ) && arg1.selectionSet == selectionSet      // ... and the table is keyed by the pair: what is remembered for one type says nothing about another
 //@   call mapupdate ghost marked = true
 // completeness of the object case: no selection and no fragment is skipped - every selection visited so far was either
 // checked as __typename or validated against its field, every fragment visited so far was validated against the object
